@@ -14,7 +14,7 @@ BASE = {
 
 
 def models(tier):
-    ready = [("m", 0, n) for n in ("req", "req_big", "dwr", "dwa", "dpr", "dpa", "req_missing", "req_unkapp", "req_foreign", "unkcmd", "untyped",
+    ready = [("m", 0, n) for n in ("req", "req_big", "req_noP", "req_E", "dwr", "dwa", "dpr", "dpa", "req_missing", "req_unkapp", "req_foreign", "unkcmd", "untyped",
                                    "ans_unknown", "ans_nohost", "ans_norc", "dwa_nohost", "dwa_norc",
                                    "dwr_e2e0", "dwr_hbh0", "req_e2e0", "ans_T_replay")]
     ready += [("ans", 0), ("ans", 1), ("ans2", 0), ("tick", 2), ("b", 0, "dwr", "dwr"), ("b", 0, "req", "req_unkapp"), ("b", 0, "dwr", "dpr")]
@@ -25,6 +25,12 @@ def models(tier):
     m1r = monitors.ScenarioModel("inbound-ready-handler-raises", raising,
                                  [("m", 0, n) for n in ("req", "dwr", "req_missing", "ans_unknown", "untyped")] + [("tick", 2)],
                                  [monitors.AnswerMonitor], max_socks=1, prelude=[("accept",), ("m", 0, "cer_p0")])
+    wdc = copy.deepcopy(BASE)
+    wdc["node"].update({"idle_timeout": 2, "dwa_timeout": 4})
+    m1w = monitors.ScenarioModel("inbound-awaiting-DWA", wdc,
+                                 [("m", 0, n) for n in ("req", "dwr", "dwa", "dpr", "req_missing", "req_unkapp", "ans_unknown", "dwa_nohost", "unkcmd")] +
+                                 [("ans", 0), ("ans", 1), ("tick", 1), ("b", 0, "dwa", "req"), ("b", 0, "dpr", "dwa")],
+                                 [monitors.AnswerMonitor], max_socks=1, prelude=[("accept",), ("m", 0, "cer_p0"), ("tick", 3)])
     norc = copy.deepcopy(BASE)
     norc["apps"][0]["behaviour"] = "answer_norc"
     m1n = monitors.ScenarioModel("inbound-ready-handler-answers-without-result-code", norc,
@@ -44,7 +50,7 @@ def models(tier):
     two += [("ans", 0), ("ans", 1), ("ans", 2), ("tick", 2)]
     m4 = monitors.ScenarioModel("two-ready-connections", BASE, two, [monitors.AnswerMonitor], max_socks=2,
                                 prelude=[("accept",), ("m", 0, "cer_p0"), ("accept",), ("m", 1, "cer_p1")])
-    return [m1, m1r, m1n, m2, m3, m4]
+    return [m1, m1r, m1n, m1w, m2, m3, m4]
 
 
 def run(tier):
